@@ -238,7 +238,15 @@ def run(chk, tier, prop):
             cases.append(loop_gen.gen_nested_case(rng, prop))
     kept, impl = [], []
     for c in cases:
-        i = run_impl(c)
+        try:
+            with lib.time_limit(30):
+                i = run_impl(c)
+        except lib.Hang:
+            chk.count()
+            chk.violation("impl-hangs", "the implementation does not come back from a session within 30 s (every generated session is "
+                          "bounded by a handler-invocation limit and ends in milliseconds on the unchanged tree)",
+                          dict(kind="loop", prop=prop, case=c), found=True)
+            continue
         chk.count()
         if 5 in i[0]:
             chk.hist("discarded:step-limit")
